@@ -422,6 +422,10 @@ func fsLink(path string) string { return "" }
 func fsIsLink(path string) bool { return false }
 func ufStr(name string, args ...any) string { return "" }
 func ufInt(name string, args ...any) int { return 0 }
+func callStr(fn string, s string) string { return "" }
+func renderedRange(expr string) string { return "" }
+func eachStr(pre string, list []string, suf string) string { return "" }
+func callStrs(fn string, s []string) []string { return nil }
 func ufBool(name string, args ...any) bool { return false }
 func errIs(err, target error) bool { return false }
 func errAsSigningFailure(err error) bool { return false }
@@ -626,7 +630,7 @@ var ghostNames = map[string]bool{
 	"gvcModLoc": true, "gvcModGhost": true, "gvcModFlag": true, "gvcModMap": true, "gvcModGlob": true,
 	"fsContent": true, "fsExists": true, "fsReadable": true, "fsIsDir": true, "fsMode": true, "fsSize": true, "fsMTime": true,
 	"fsLink": true, "fsIsLink": true, "ufStr": true, "ufInt": true, "ufBool": true,
-	"errIs": true, "errAsSigningFailure": true, "errMsg": true, "mapHas": true, "bit": true, "isNilFunc": true, "dynType": true, "mergoOverride": true, "deepEq": true, "forallKeys": true, "forallStr": true, "globErr": true, "readerContent": true,
+	"errIs": true, "errAsSigningFailure": true, "errMsg": true, "mapHas": true, "bit": true, "isNilFunc": true, "dynType": true, "mergoOverride": true, "deepEq": true, "forallKeys": true, "forallStr": true, "globErr": true, "readerContent": true, "callStr": true, "callStrs": true, "renderedRange": true, "eachStr": true,
 }
 
 func ghostBuiltin(fn *ssa.Function) string {
@@ -682,7 +686,7 @@ func (e *Engine) ghostCall(c *CallCtx, g string, fn *ssa.Function) *Term {
 	case "old":
 		return c.args[0]
 	case "implies":
-		return Implies(c.args[0], c.args[1])
+		return Implies(c.args[0], Restrict(c.args[1], c.args[0]))
 	case "iff":
 		return Eq(c.args[0], c.args[1])
 	case "fresh", "allocated":
@@ -770,6 +774,33 @@ func (e *Engine) ghostCall(c *CallCtx, g string, fn *ssa.Function) *Term {
 		}
 		rs := map[string]*Sort{"ufStr": StringS, "ufInt": IntS, "ufBool": BoolS}[g]
 		return App(DeclUF(name, rs, ss...), as...)
+	case "renderedRange":
+		// call-history ghost: the text the template executor rendered for the range over the named pipeline
+		r, ok := e.callHist["range:"+e.constStr(c.args[0])]
+		if !ok {
+			e.note("no template range over " + e.constStr(c.args[0]) + " was observed")
+			return Fresh("norange", StringS)
+		}
+		return r
+	case "eachStr":
+		e.leafComp("E:string", types.Typ[types.String])
+		return e.strEach(st, c.args[0], c.args[2], c.args[1])
+	case "callStr", "callStrs":
+		// call-history ghost: the value the named function returned when the
+		// code under verification applied it to this argument (template function calls)
+		name := e.constStr(c.args[0])
+		if !strings.Contains(name, "/") && c.fr != nil && c.fr.fn.Pkg != nil {
+			name = c.fr.fn.Pkg.Pkg.Path() + "." + name
+		}
+		if e.funcsByName[name] == nil {
+			panic("contract refers to unknown function " + name)
+		}
+		r, ok := e.callHist[fmt.Sprintf("%s(%d)", name, c.args[1].id)]
+		if !ok {
+			e.note("no call of " + name + " with the argument named by the contract was observed")
+			return Fresh("nocall", e.tr.sortOf(fn.Signature.Results().At(0).Type()))
+		}
+		return r
 	case "errIs":
 		return e.errorsIs(st, c.args[0], c.args[1])
 	case "errAsSigningFailure":
